@@ -281,6 +281,23 @@ def run_case(concepts, case, spec):
         call(lat.join, arg)
         arg = ms if rng.random() < .5 else iter(list(ms))
         call(lat.meet, arg)
+    # one collection object handed to several calls (the driver never edits it): sets, frozensets,
+    # dict views, deques; with and without the bottom / the top among the members
+    import collections as _c
+    for t in range(10 if thorough else 6):
+        ms = [members[rng.randrange(n)] for _ in range(rng.randint(1, 5))]
+        if t % 2 == 0:
+            ms += [members[0], members[-1]][:1 + t % 3]
+        if t % 3 == 1:
+            ms.append(members[-1])
+        coll = [set, frozenset, lambda x: dict.fromkeys(x).keys(), _c.deque, list, lambda x: dict.fromkeys(x)][t % 6](ms)
+        common.declare(coll)
+        call(lat.join, coll)
+        call(lat.meet, coll)
+        call(lat.join, coll)
+        call(lat.meet, coll)
+        common.undeclare(coll)
+    COL.count('one_collection_object_for_several_calls')
     # other look-ups on the same lattice in between (shared memo tables), one mutable argument list
     props = list(ctx.properties)
     objs = list(ctx.objects)
